@@ -96,6 +96,14 @@ func genMapKey(rt *rapid.T, fd protoreflect.FieldDescriptor, label string) proto
 // GenMessage fills m with drawn values.
 func GenMessage(rt *rapid.T, m protoreflect.Message, label string, depth int, opt *GenOpts) {
 	md := m.Descriptor()
+	if md.FullName() == "google.protobuf.Timestamp" {
+		// always a valid timestamp (also as list element / map value)
+		secs := rapid.Int64Range(-62135596800, 253402300799).Draw(rt, label+"#secs")
+		nanos := rapid.SampledFrom([]int32{0, 0, 1, 1000, 1000000, 123456789, 999999999}).Draw(rt, label+"#nanos")
+		m.Set(md.Fields().ByName("seconds"), protoreflect.ValueOfInt64(secs))
+		m.Set(md.Fields().ByName("nanos"), protoreflect.ValueOfInt32(nanos))
+		return
+	}
 	fds := md.Fields()
 	maxDepth := 3
 	if opt != nil && opt.MaxDepth > 0 {
